@@ -12,9 +12,10 @@ VARIABLE st   \* [wrap, pre, open, content, close, post, cut]
 
 CONSTANTS Pre,      \* subset of {"none", "pi", "cmt", "doctype", "empty", "cempty", "bang"}
           Open,     \* subset of {"oa", "oattr", "ons", "osp", "sc", "scattr", "scsp"}
-          Content,  \* subset of {"none", "txt", "cdata", "nested", "selfnested", "ccmt", "opencdata"}
+          Content,  \* subset of {"none", "txt", "cdata", "nested", "selfnested", "emptytag", "ccmt", "opencdata"}
           Close,    \* subset of {"ca", "cns", "cb", "none"}
-          Post      \* subset of {"none", "sp", "elem2", "stray", "lt", "ltbang"}
+          Post,     \* subset of {"none", "sp", "elem2", "stray", "lt", "ltbang"}
+          CutWrapped \* BOOLEAN: also cut the documents that are wrapped in <r>...</r>
 SelfClosing == {"sc", "scattr", "scsp"}
 
 T(x) == CASE x = "none" -> << >>
@@ -35,6 +36,7 @@ T(x) == CASE x = "none" -> << >>
    [] x = "cdata" -> << 60, 33, 91, 67, 68, 65, 84, 65, 91, 99, 60, 100, 93, 93, 62 >>
    [] x = "nested" -> << 60, 98, 62, 116, 60, 47, 98, 62 >>
    [] x = "selfnested" -> << 60, 98, 47, 62 >>
+   [] x = "emptytag" -> << 60, 62 >>
    [] x = "ccmt" -> << 117, 60, 33, 45, 45, 107, 45, 45, 62, 118 >>
    [] x = "opencdata" -> << 60, 33, 91, 67, 68, 65, 84, 65, 91, 99 >>
    [] x = "ca" -> << 60, 47, 97, 62 >>
@@ -66,7 +68,7 @@ SetContent == Later(4) /\ st.content = "txt" /\ st.open \notin SelfClosing /\ \E
 SetClose == Later(5) /\ st.close = "ca" /\ st.open \notin SelfClosing /\ \E x \in Close \ {"ca"} : st' = [st EXCEPT !.close = x]
 SetPost == Later(6) /\ st.post = "none" /\ \E x \in Post \ {"none"} : st' = [st EXCEPT !.post = x]
 \* cut anywhere (plain skeletons only, to keep the corpus small)
-CutIt == st.cut = 0 /\ st.pre = "none" /\ st.post = "none" /\ \E c \in 1 .. (Len(Full(st)) - 1) : st' = [st EXCEPT !.cut = c]
+CutIt == st.cut = 0 /\ st.pre = "none" /\ st.post = "none" /\ (st.wrap => CutWrapped) /\ \E c \in 1 .. (Len(Full(st)) - 1) : st' = [st EXCEPT !.cut = c]
 Next == SetWrap \/ SetPre \/ SetOpen \/ SetContent \/ SetClose \/ SetPost \/ CutIt
 Spec == Init /\ [][Next]_st
 
